@@ -31,6 +31,8 @@ pub struct Dims {
     pub sig: u8,      // 0 ok, 1 wrong (64 hex), 2 too long (65), 3 empty, 4 truncated (63)
     #[serde(default)]
     pub token: u8,    // 0 no session token, 1 a session token (temporary credentials) -- no rule depends on it
+    #[serde(default)]
+    pub form: u8,     // 0 no body, 1 a form body folded into the query (server option on) -- used by C14's classes
 }
 
 impl Dims {
@@ -82,6 +84,13 @@ pub fn materialize(d: &Dims) -> Option<Case> {
     plan.headers.push(("X-Opt".into(), b"o".to_vec()));
     plan.headers.push(("X-Pre-1".into(), b"p".to_vec()));
     plan.signed.extend(["x-req".to_string(), "x-opt".to_string(), "x-pre-1".to_string()]);
+    if d.form == 1 {
+        plan.method = "POST".into();
+        plan.headers.push(("Content-Type".into(), b"application/x-www-form-urlencoded".to_vec()));
+        plan.signed.push("content-type".into());
+        plan.body = b"fa=1&fb=x+y".to_vec();
+        plan.body_params = Some(vec![(b"fa".to_vec(), b"1".to_vec()), (b"fb".to_vec(), b"x y".to_vec())]);
+    }
     if d.token == 1 {
         plan.token = Some("SESSION/token+1=".into());
         if carrier == Carrier::Header {
@@ -247,6 +256,7 @@ pub fn materialize(d: &Dims) -> Option<Case> {
         }
     }
     let mut cfg = Cfg::basic(now);
+    cfg.fold = d.form == 1;
     cfg.reqs = ReqSpec {
         always: vec!["X-Req".into()],
         if_in_request: vec!["x-opt".into()],
@@ -294,7 +304,7 @@ pub fn message_class(msg: &str) -> String {
 
 /// The single-defect vector that isolates the stage at which `d` stops.
 fn isolated(d: &Dims, stage: Stage) -> Dims {
-    let z = Dims { query_carrier: d.query_carrier, path: 0, query: 0, carrier: 0, alg: 0, syntax: 0, missing: 0, reqs: 0, date: 0, cred: 0, provider: 0, sig: 0, token: d.token };
+    let z = Dims { query_carrier: d.query_carrier, path: 0, query: 0, carrier: 0, alg: 0, syntax: 0, missing: 0, reqs: 0, date: 0, cred: 0, provider: 0, sig: 0, token: d.token, form: d.form };
     match stage {
         Stage::Path => Dims { path: d.path, ..z },
         Stage::Query => Dims { query: d.query, ..z },
@@ -486,6 +496,7 @@ fn dims_at(space: &[Vec<u8>], query_carrier: bool, mut i: u64) -> Dims {
         provider: v[9],
         sig: v[10],
         token: v[11],
+        form: 0,
     }
 }
 
